@@ -1,0 +1,34 @@
+//go:build verif
+
+package db
+
+// Contracts for package db, checked by /verif (govc). Comment-only file: it adds no declarations.
+
+// Abstract view of a pairing database d: dbver(d) counts mutations; (lastname, lastkey) is the entity of the last save.
+//@ ghost dbver(ref) int
+//@ ghost lastname(ref) str
+//@ ghost lastkey(ref) seq
+//@ ghost dbhas(ref, str) bool
+//@ ghost dbkey(ref, str) seq
+
+//@ func NewEntity(name, publicKey, privateKey) (e)
+//@   pure
+//@   ensures e.Name == name && e.PublicKey == publicKey && e.PrivateKey == privateKey
+
+//@ invoke "github.com/brutella/hc/db.Database.SaveEntity"(d, e) (err)
+//@   modifies dbver(d), lastname(d), lastkey(d), dbhas(d, e.Name), dbkey(d, e.Name)
+//@   ensures dbver(d) == old(dbver(d)) + 1 && lastname(d) == e.Name && lastkey(d) == seq(e.PublicKey)
+//@   ensures err == nil ==> dbhas(d, e.Name) && dbkey(d, e.Name) == seq(e.PublicKey)
+
+//@ invoke "github.com/brutella/hc/db.Database.DeleteEntity"(d, e)
+//@   modifies dbver(d), dbhas(d, e.Name)
+//@   ensures dbver(d) == old(dbver(d)) + 1 && !dbhas(d, e.Name)
+
+//@ invoke "github.com/brutella/hc/db.Database.EntityWithName"(d, name) (e, err)
+//@   pure
+//@   ensures err == nil ==> dbhas(d, name) && seq(e.PublicKey) == dbkey(d, name) && e.Name == name
+//@   ensures !dbhas(d, name) ==> err != nil
+
+//@ invoke "github.com/brutella/hc/db.Database.Entities"(d) (es, err)
+//@   fresh es
+//@   pure
